@@ -34,7 +34,7 @@ EXPLANATION = (
 )
 
 MANIFEST = {
-    "technique": "static analysis: clone agreement on canonical-term signatures of the per-image body (serial vs worker vs specification, local helpers inlined), loop-carried dependence check of the flip decision, must-pass-through of lock cleanup, polynomial cancellation for the global reference pixel, flip algebra premises shared with C16; lock premises shared with C10, input-flow premise shared with C20; positional pairing: the descriptor list zipped with collection.images() is built one entry per description and never re-ordered / filtered (who-may-mutate)",
+    "technique": "static analysis: clone agreement on canonical-term signatures of the per-image body (serial vs worker vs specification, local helpers inlined), loop-carried dependence check of the flip decision, must-pass-through of lock cleanup, polynomial cancellation for the global reference pixel, flip algebra premises shared with C16; lock premises shared with C10, input-flow premise shared with C20; positional pairing: the descriptor list zipped with collection.images() is built one entry per description and never re-ordered / filtered (who-may-mutate); per-mode update convention and the range cards of re-saved shared tiles (shared with C15 / C14); one image per input in step with the descriptions (shared with C20)",
     "text": "Decides the structural premises of 'tiling the pieces equals tiling the mosaic, for both input parities, any worker count, with no lock files left': placement algebra, per-image parity reconciliation, locked merging, cleanup, global pixelisation algebra.",
     "note": "Trusted: C08 (sub-image tiling), C10 (locked update), C15 (mask-aware update), C16 (flip_parity). Not decided: pixel equality with the pasted mosaic and order independence for overlapping inputs (runtime data).",
 }
